@@ -94,48 +94,112 @@ def _summarise(index, scenario, out, keep_scenario=False):
     return s
 
 
+class Agg(object):
+    """Aggregated coverage of many scenarios (kept small: sets of short digests and counters)."""
+
+    def __init__(self):
+        self.n = 0
+        self.probes = Counter()
+        self.faults = Counter()
+        self.sim_seconds = 0.0
+        self.runs = 0
+        self.shapes = set()
+        self.outs = set()
+        self.nontrivial = set()
+
+    def add(self, s):
+        self.n += 1
+        self.probes.update(s["probes"])
+        self.faults.update(s["faults"])
+        self.sim_seconds += s["sim_seconds"]
+        self.runs += s["runs"]
+        if s["trace_shape"]:
+            self.shapes.add(s["trace_shape"])
+        if s["out_digest"]:
+            self.outs.add(s["out_digest"])
+        if s["nontrivial"]:
+            self.nontrivial.add(s["scen_digest"])
+            for d in (s.get("extra") or {}).get("nontrivial_case_digests", []):
+                self.nontrivial.add(d)
+
+    def merge(self, o):
+        self.n += o.n
+        self.probes.update(o.probes)
+        self.faults.update(o.faults)
+        self.sim_seconds += o.sim_seconds
+        self.runs += o.runs
+        self.shapes |= o.shapes
+        self.outs |= o.outs
+        self.nontrivial |= o.nontrivial
+
+
+class Batch(object):
+    def __init__(self):
+        self.agg = Agg()
+        self.detail = {}         # index -> summary (self-test subset, samples)
+        self.violating = []      # summaries with violations (scenario attached)
+        self.harness_errors = []
+
+    def absorb(self, part):
+        self.agg.merge(part["agg"])
+        self.detail.update(part["detail"])
+        self.violating.extend(part["violating"])
+        self.harness_errors.extend(part["harness_errors"])
+
+
 def _chunk_task(args):
     pid, tier, base, indices, scratch_root, keep, per_timeout = args
-    res = []
+    part = {"agg": Agg(), "detail": {}, "violating": [], "harness_errors": []}
     try:
         mod = load_prop(pid)
+        known = load_known()
     except Exception:
-        return [{"index": i, "harness_error": traceback.format_exc()} for i in indices]
+        part["harness_errors"] = [{"index": i, "harness_error": traceback.format_exc()} for i in indices]
+        return part
     for i in indices:
         faulthandler.dump_traceback_later(per_timeout, exit=True)
         try:
             scenario = mod.generate(scenario_rng(pid, base, i), tier, i)
             out = execute_scenario(mod, scenario, scratch_root)
-            res.append(_summarise(i, scenario, out, keep_scenario=(i in keep)))
+            s = _summarise(i, scenario, out, keep_scenario=(i in keep))
+            part["agg"].add(s)
+            if s["violations"]:
+                if i not in keep and all(v.get("sig") and (pid, v.get("sig")) in known for v in s["violations"]):
+                    s = dict(s)
+                    s.pop("scenario", None)      # known findings are only counted: no need to ship the document
+                part["violating"].append(s)
+            if i in keep:
+                part["detail"][i] = s
         except Exception:
-            res.append({"index": i, "harness_error": traceback.format_exc()})
+            part["harness_errors"].append({"index": i, "harness_error": traceback.format_exc()})
         finally:
             faulthandler.cancel_dump_traceback_later()
-    return res
+    return part
 
 
 def run_indices(pid, tier, base, indices, workers, scratch_root, keep=(), chunk=8, per_timeout=300,
                 wall_budget=None):
-    """Run scenarios `indices`; returns list of summaries sorted by index."""
+    """Run scenarios `indices`; returns a Batch (aggregates + details for `keep` + violating summaries)."""
     indices = list(indices)
     chunks = [indices[i:i + chunk] for i in range(0, len(indices), chunk)]
     keep = set(keep)
-    out = []
+    batch = Batch()
     ctx = multiprocessing.get_context("fork")
-    t0 = time.time()
+    done = 0
     with cf.ProcessPoolExecutor(max_workers=workers, mp_context=ctx) as ex:
         futs = [ex.submit(_chunk_task, (pid, tier, base, c, scratch_root, keep, per_timeout)) for c in chunks]
         try:
             for f in cf.as_completed(futs, timeout=wall_budget):
-                out.extend(f.result())
+                batch.absorb(f.result())
+                done += 1
         except cf.TimeoutError:
             for f in futs:
                 f.cancel()
-            raise HarnessError("wall budget of %ss exceeded after %d/%d scenarios" % (wall_budget, len(out), len(indices)))
+            raise HarnessError("wall budget of %ss exceeded after %d/%d chunks" % (wall_budget, done, len(chunks)))
         except cf.process.BrokenProcessPool:
             raise HarnessError("a worker process died (see stderr for a faulthandler dump)")
-    out.sort(key=lambda s: s["index"])
-    return out
+    batch.violating.sort(key=lambda s: repr(s["index"]))
+    return batch
 
 
 class HarnessError(Exception):
@@ -287,24 +351,23 @@ def selftest_child(pid, tier, base, indices):
     print("SELFTEST " + json.dumps(res, default=str))
 
 
-def determinism_selftest(pid, mod, tier, base, summaries, n, scratch_root, workers):
+def determinism_selftest(pid, mod, tier, base, detail, n, scratch_root, workers):
     """(1) rerun n scenarios at another worker count / chunking: event-log digests
     must match the main batch.  (2) fresh interpreter under another harness
     PYTHONHASHSEED: identical scenario documents and verdicts (byte digests of
     sheXer output may differ there for hash-sensitive inputs -- C19's subject)."""
-    by_index = {s["index"]: s for s in summaries if "harness_error" not in s}
+    by_index = dict(detail)
     idx = sorted(by_index)[:n]
     if not idx:
         return {"ok": True, "n": 0}
-    again = run_indices(pid, tier, base, list(reversed(idx)), max(2, workers // 3), scratch_root, chunk=3)
+    again = run_indices(pid, tier, base, list(reversed(idx)), max(2, workers // 3), scratch_root, keep=idx, chunk=3)
     mism = []
-    for s in again:
-        if "harness_error" in s:
-            mism.append((s["index"], "harness_error"))
-            continue
-        a = by_index[s["index"]]
+    for e in again.harness_errors:
+        mism.append((e["index"], "harness_error"))
+    for i, s in again.detail.items():
+        a = by_index[i]
         if (a["scen_digest"], a["log_digest"], a["verdict"]) != (s["scen_digest"], s["log_digest"], s["verdict"]):
-            mism.append((s["index"], "rerun differs"))
+            mism.append((i, "rerun differs"))
     hs = getattr(mod, "SELFTEST_HASHSEEDS", ["0", "4242"])
     fresh = {}
     for h in hs:
@@ -314,7 +377,7 @@ def determinism_selftest(pid, mod, tier, base, summaries, n, scratch_root, worke
         cmd = [sys.executable, os.path.join(VERIF, "dsim", "main.py"), pid, tier, "--selftest-child",
                ",".join(str(i) for i in idx[:max(4, n // 4)])]
         env["VERIF_SEED"] = str(base)
-        p = subprocess.run(cmd, env=env, capture_output=True, text=True, timeout=900)
+        p = subprocess.run(cmd, env=env, capture_output=True, text=True, timeout=1800)
         line = [l for l in p.stdout.splitlines() if l.startswith("SELFTEST ")]
         if p.returncode != 0 or not line:
             mism.append(("hashseed=" + h, "child failed: " + p.stderr[-400:]))
@@ -347,51 +410,48 @@ def run_check(pid, tier, base, workers=None, count=None, selftest=True):
     n = count if count is not None else mod.COUNTS[tier]
     scratch_root = tempfile.mkdtemp(prefix="dsim-%s-" % pid)
     known = load_known()
-    lines = []
     exit_code = EXIT_OK
     try:
         print("dsim %s tier=%s VERIF_SEED=%s scenarios=%d workers=%d PYTHONHASHSEED=%s" % (
             pid, tier, base, n, workers, os.environ.get("PYTHONHASHSEED")), flush=True)
-        sample_idx = set(range(0, n, max(1, n // 4)))
-        summaries = run_indices(pid, tier, base, range(n), workers, scratch_root, keep=sample_idx,
-                                chunk=getattr(mod, "CHUNK", 8), wall_budget=mod.WALL[tier])
+        n_self = mod.SELFTEST_N[tier] if selftest else 0
+        keep = set(range(0, n, max(1, n // 4))) | set(range(min(n, n_self)))
+        batch = run_indices(pid, tier, base, range(n), workers, scratch_root, keep=keep,
+                            chunk=getattr(mod, "CHUNK", 8), wall_budget=mod.WALL[tier])
         # extra systematic sub-checks (fault-position sweeps, big outputs, ...); skipped when the seeded
         # batch already found an unlisted violation, so that a defect which also makes the big scenarios
         # crawl is reported as a violation instead of a wall-time harness error
-        extra_summaries = []
+        extra = Batch()
         seeded_unknown = any(not (v.get("sig") and (pid, v.get("sig")) in known)
-                             for s in summaries if "harness_error" not in s for v in s["violations"])
+                             for s in batch.violating for v in s["violations"])
         if hasattr(mod, "extra_scenarios") and not seeded_unknown:
             extras = list(mod.extra_scenarios(tier, base))
             if extras:
-                extra_summaries = run_extra(pid, mod, extras, workers, scratch_root, mod.WALL[tier])
-        herr = [s for s in summaries + extra_summaries if "harness_error" in s]
+                extra = run_extra(pid, mod, extras, workers, scratch_root, mod.WALL[tier])
+        herr = batch.harness_errors + extra.harness_errors
         if herr:
             print("HARNESS-ERROR in %d scenario(s); first:\n%s" % (len(herr), herr[0]["harness_error"]))
             return EXIT_HARNESS
         st = {"ok": True, "n": 0, "skipped": True}
         if selftest:
-            st = determinism_selftest(pid, mod, tier, base, summaries, mod.SELFTEST_N[tier], scratch_root, workers)
+            detail = {i: s for i, s in batch.detail.items() if i < n_self}
+            st = determinism_selftest(pid, mod, tier, base, detail, n_self, scratch_root, workers)
             if not st["ok"]:
                 print("HARNESS-ERROR determinism self-test failed: %s" % st["mismatches"])
                 return EXIT_HARNESS
         # ---- triage
-        allsum = summaries + extra_summaries
         known_hits = Counter()
-        known_example = {}
         unknown = []
-        for s in allsum:
+        for s in batch.violating + extra.violating:
             for v in s["violations"]:
                 key = (pid, v.get("sig"))
                 if v.get("sig") and key in known:
                     known_hits[v["sig"]] += 1
-                    known_example.setdefault(v["sig"], (s, v))
                 else:
                     unknown.append((s, v))
         for sig, cnt in sorted(known_hits.items()):
             e = known[(pid, sig)]
             print("KNOWN-FINDING: property=%s %s [%s] (%d scenario hits this run)" % (pid, e["what_fails"], sig, cnt))
-        replay_paths = []
         if unknown:
             exit_code = EXIT_VIOLATION
             seen = set()
@@ -408,16 +468,15 @@ def run_check(pid, tier, base, workers=None, count=None, selftest=True):
                 vv = vv[0] if vv else v
                 path = write_replay(pid, base, s["index"], small, vv, out,
                                     minimised_from=jdigest(scen), tries=tries)
-                replay_paths.append(path)
                 print("violation: oracle=%s class=%s sig=%s index=%s detail=%s" % (
                     v["oracle"], v["klass"], v.get("sig"), s["index"], json.dumps(vv.get("detail"), default=str)[:500]))
                 print("VIOLATION property=%s replay=%s" % (pid, path), flush=True)
                 if len(seen) >= 8:
                     break
         wall = time.time() - t0
-        write_evidence(pid, mod, tier, base, summaries, extra_summaries, st, known_hits, unknown, wall, workers)
+        write_evidence(pid, mod, tier, base, batch, extra, st, known_hits, unknown, wall, workers)
         print("%s %s: %d scenarios (+%d systematic), %d known-finding hits, %d unlisted violations, %.1fs" % (
-            pid, tier, len(summaries), len(extra_summaries), sum(known_hits.values()), len(unknown), wall))
+            pid, tier, batch.agg.n, extra.agg.n, sum(known_hits.values()), len(unknown), wall))
         return exit_code
     except HarnessError as e:
         print("HARNESS-ERROR %s" % e)
@@ -427,95 +486,83 @@ def run_check(pid, tier, base, workers=None, count=None, selftest=True):
 
 
 def _extra_task(args):
-    pid, items, scratch_root = args
+    pid, items, scratch_root, keep_tags = args
     mod = load_prop(pid)
-    res = []
+    part = {"agg": Agg(), "detail": {}, "violating": [], "harness_errors": []}
     for (tag, scenario) in items:
         faulthandler.dump_traceback_later(600, exit=True)
         try:
             out = execute_scenario(mod, scenario, scratch_root)
-            s = _summarise(tag, scenario, out)
+            s = _summarise(tag, scenario, out, keep_scenario=(tag in keep_tags))
             s["systematic"] = True
-            res.append(s)
+            part["agg"].add(s)
+            if s["violations"]:
+                part["violating"].append(s)
+            if tag in keep_tags:
+                part["detail"][tag] = s
         except Exception:
-            res.append({"index": tag, "harness_error": traceback.format_exc()})
+            part["harness_errors"].append({"index": tag, "harness_error": traceback.format_exc()})
         finally:
             faulthandler.cancel_dump_traceback_later()
-    return res
+    return part
 
 
 def run_extra(pid, mod, extras, workers, scratch_root, wall_budget):
     chunk = max(1, min(8, len(extras) // (workers * 2) or 1))
     chunks = [extras[i:i + chunk] for i in range(0, len(extras), chunk)]
+    keep_tags = {extras[0][0], extras[len(extras) // 2][0]}
     ctx = multiprocessing.get_context("fork")
-    out = []
+    batch = Batch()
     with cf.ProcessPoolExecutor(max_workers=workers, mp_context=ctx) as ex:
-        futs = [ex.submit(_extra_task, (pid, c, scratch_root)) for c in chunks]
+        futs = [ex.submit(_extra_task, (pid, c, scratch_root, keep_tags)) for c in chunks]
         try:
             for f in cf.as_completed(futs, timeout=wall_budget):
-                out.extend(f.result())
+                batch.absorb(f.result())
         except cf.TimeoutError:
             raise HarnessError("wall budget exceeded in systematic sub-check")
         except cf.process.BrokenProcessPool:
             raise HarnessError("a worker died in systematic sub-check")
-    out.sort(key=lambda s: repr(s["index"]))
-    return out
+    batch.violating.sort(key=lambda s: repr(s["index"]))
+    return batch
 
 
 # ---------------------------------------------------------------------------
 # evidence
 # ---------------------------------------------------------------------------
 
-def write_evidence(pid, mod, tier, base, summaries, extra_summaries, st, known_hits, unknown, wall, workers):
+def write_evidence(pid, mod, tier, base, batch, extra, st, known_hits, unknown, wall, workers):
     os.makedirs(EVIDENCE_DIR, exist_ok=True)
-    allsum = summaries + extra_summaries
-    probes = Counter()
-    faults = Counter()
-    sim_seconds = 0.0
-    runs = 0
-    shapes = set()
-    outs = set()
-    nontrivial = set()
-    for s in allsum:
-        probes.update(s["probes"])
-        faults.update(s["faults"])
-        sim_seconds += s["sim_seconds"]
-        runs += s["runs"]
-        if s["trace_shape"]:
-            shapes.add(s["trace_shape"])
-        if s["out_digest"]:
-            outs.add(s["out_digest"])
-        if s["nontrivial"]:
-            nontrivial.add(s["scen_digest"])
+    agg = Agg()
+    agg.merge(batch.agg)
+    agg.merge(extra.agg)
     samples = []
-    for s in allsum:
-        if "scenario" in s and len(samples) < 4 and not s["violations"]:
+    details = [batch.detail[k] for k in sorted(batch.detail)] + [extra.detail[k] for k in sorted(extra.detail, key=repr)]
+    step = max(1, len(details) // 4)
+    for s in details[::step]:
+        if "scenario" in s and len(samples) < 5:
             samples.append({"index": s["index"], "scenario": _trim(s["scenario"]), "event_log_digest": s["log_digest"],
-                            "probes": s["probes"], "faults_fired": s["faults"]})
-    if not samples:
-        for s in allsum[:2]:
-            if "scenario" in s:
-                samples.append({"index": s["index"], "scenario": _trim(s["scenario"])})
+                            "probes": s["probes"], "faults_fired": s["faults"],
+                            "violations": [[v["oracle"], v["klass"], v.get("sig")] for v in s["violations"]]})
     ev = {
         "property_id": pid,
         "tier": tier,
         "seed": int(base),
         "level": mod.LEVEL,
         "coverage": {
-            "evaluations": len(allsum),
-            "distinct_nontrivial": len(nontrivial),
+            "evaluations": agg.n,
+            "distinct_nontrivial": len(agg.nontrivial),
             "rule": mod.RULE,
             "samples": samples,
-            "seeded_scenarios": len(summaries),
-            "systematic_scenarios": len(extra_summaries),
-            "shaper_executions": runs,
-            "scenarios_per_hour": int(len(allsum) / wall * 3600) if wall > 0 else 0,
-            "shaper_executions_per_hour": int(runs / wall * 3600) if wall > 0 else 0,
-            "simulated_seconds": round(sim_seconds, 3) if getattr(mod, "HAS_CLOCK", False) else "no clock in this check",
-            "faults_fired": dict(sorted(faults.items())),
-            "probes": dict(sorted(probes.items())),
-            "distinct_event_trace_shapes": len(shapes),
-            "distinct_normalised_outputs": len(outs),
+            "seeded_scenarios": batch.agg.n,
+            "systematic_scenarios": extra.agg.n,
+            "shaper_executions": agg.runs,
+            "scenarios_per_hour": int(agg.n / wall * 3600) if wall > 0 else 0,
+            "shaper_executions_per_hour": int(agg.runs / wall * 3600) if wall > 0 else 0,
+            "simulated_seconds": round(agg.sim_seconds, 3) if getattr(mod, "HAS_CLOCK", False) else "no clock in this check",
+            "faults_fired": dict(sorted(agg.faults.items())),
+            "probes": dict(sorted(agg.probes.items())),
+            "distinct_event_trace_shapes": len(agg.shapes),
+            "distinct_normalised_outputs": len(agg.outs),
             "components": mod.COMPONENTS,
             "determinism_selftest": st,
             "known_finding_hits": dict(known_hits),
